@@ -204,7 +204,7 @@ def gen_history(rng, n_ops=None, p_force=0, p_invalid=0, p_retry=0, p_gap=0):
             # mostly legal re-deliveries: an object the client library refuses (its creation is requeued),
             # or the current version of some cluster (resync); sometimes any earlier event
             cands = [j for j, q in enumerate(ops) if q["op"] == "apply" and
-                     (q["obj"]["client"] == 1 or last.get(bytes(q["obj"]["name"])) is q["obj"])]
+                     (q["obj"]["client"] == 1 or q["force"] or last.get(bytes(q["obj"]["name"])) is q["obj"])]
             if cands and rng.chance(4, 5):
                 ops.append({"op": "retry", "k": rng.choice(cands)})
             else:
@@ -226,6 +226,79 @@ def gen_history(rng, n_ops=None, p_force=0, p_invalid=0, p_retry=0, p_gap=0):
         if a not in names:
             names.append(a)
     return {"hosts": [B(h) for h in hosts_for(names)], "xp": [[B(h), B(x)] for h, x in xprobes_for(names, rng)],
+            "ops": ops, "clusters": [B(c) for c in clusters],
+            "schemas": [B(s) for s in SCHEMAS] + [B(b""), B(b"nosuch")],
+            "fresh": [rng.below(4) for _ in range(3)], "views": True}
+
+
+def gen_conflict_history(rng):
+    """Admission race: a version of cluster a that claims a name held by cluster b reaches the store, the controller
+    rejects it (server-name conflict) and asks for a requeue; usually a newer version of a is synced meanwhile, the
+    reason for the rejection disappears (b deleted / gives the name up), and the queue re-delivers the STALE
+    version (legal: it was requeued).  Random ordinary ops are sprinkled in between; all objects are field-valid."""
+    clusters = rng.sample(CLUSTERS, rng.randint(2, 3))
+    a, b = clusters[0], clusters[1]
+    aliases = rng.sample(ALIASES[:6], rng.randint(3, 4))
+    x = aliases[0]
+    free = aliases[1:]
+    ops, last, versions = [], {}, {}
+
+    def put(nm, o, force=False):
+        ops.append({"op": "apply", "force": force, "obj": o})
+        last[nm] = o
+        versions.setdefault(nm, []).append(o)
+        return len(ops) - 1
+
+    def filler(n):
+        for _ in range(n):
+            k = rng.below(10)
+            others = [c for c in clusters if c not in (a, b)]
+            if k < 4 and others:
+                nm = others[0]
+                put(nm, gen_obj(rng, nm, free[1:] or free, last.get(nm), history=versions.get(nm, ())))
+            elif k < 7 and last:
+                nm = rng.choice(sorted(last))                       # resync of a current version
+                idx = max(j for j, q in enumerate(ops) if q["op"] == "apply" and q["obj"] is last[nm])
+                ops.append({"op": "retry", "k": idx})
+            elif a in last and rng.chance(1, 2):
+                o = gen_obj(rng, a, free, last[a], history=versions.get(a, ()))
+                o["sn"] = [y for y in o["sn"] if bytes(y).lower() != x.lower()]
+                put(a, o)
+
+    ob = gen_obj(rng, b, free)
+    ob["sn"] = [B(x)] + [y for y in ob["sn"] if bytes(y).lower() != x.lower()][:1]
+    put(b, ob)
+    if rng.chance(2, 3):
+        o = gen_obj(rng, a, free)
+        o["sn"] = [y for y in o["sn"] if bytes(y).lower() != x.lower()]
+        put(a, o)
+    filler(rng.below(2))
+    stale = gen_obj(rng, a, free, last.get(a), history=versions.get(a, ()))
+    stale["sn"] = [B(x.upper() if rng.chance(1, 4) else x)] + [y for y in stale["sn"] if bytes(y).lower() != x.lower()]
+    k_stale = put(a, stale, force=True)                             # rejected by the controller: requeue
+    filler(rng.below(2))
+    if rng.chance(4, 5):                                            # a newer version overtakes the requeue
+        newer = gen_obj(rng, a, free, stale, history=versions.get(a, ()))
+        newer["sn"] = [y for y in newer["sn"] if bytes(y).lower() != x.lower()]
+        if rng.chance(1, 2) and free:
+            newer["sn"] = newer["sn"] + [B(rng.choice(free))]
+        put(a, newer)
+    filler(rng.below(2))
+    k = rng.below(10)
+    if k < 5:                                                       # the reason for the rejection disappears
+        ops.append({"op": "delete", "name": B(b)})
+        last.pop(b, None)
+    elif k < 9:
+        o = gen_obj(rng, b, free, last[b], history=versions.get(b, ()))
+        o["sn"] = [y for y in o["sn"] if bytes(y).lower() != x.lower()]
+        put(b, o)
+    filler(rng.below(2))
+    ops.append({"op": "retry", "k": k_stale})                       # the queue re-delivers the stale version
+    filler(rng.below(3))
+    if rng.chance(1, 2):
+        ops.append({"op": "retry", "k": k_stale})
+    names = list(clusters) + [al for al in aliases if al not in clusters]
+    return {"hosts": [B(h) for h in hosts_for(names)], "xp": [[B(h), B(s)] for h, s in xprobes_for(names, rng)],
             "ops": ops, "clusters": [B(c) for c in clusters],
             "schemas": [B(s) for s in SCHEMAS] + [B(b""), B(b"nosuch")],
             "fresh": [rng.below(4) for _ in range(3)], "views": True}
